@@ -50,6 +50,19 @@ def run(ctx):
         if isinstance(n, ast.If) and isinstance(n.test, ast.Call) and norm(n.test.func) == "isinstance" and isinstance(n.test.args[1], ast.Tuple) \
                 and any(isinstance(s, ast.Continue) for s in n.body):
             excl = {norm(e).split(".")[-1] for e in n.test.args[1].elts}
+    if excl is None:
+        # the skip decision moved into a private predicate: `if self._omit(o, ..): continue` with `if isinstance(o, (..)): return True` inside
+        from ..rules import generic as _G9
+        for h in _G9.private_callees(prog, cv):
+            used_as_skip = any(isinstance(i, ast.If) and any(isinstance(s, ast.Continue) for s in i.body) and
+                               any(isinstance(c, ast.Call) and norm(c.func).split(".")[-1] == h.name for c in ast.walk(i.test)) for i in own_nodes(cv.node))
+            if not used_as_skip:
+                continue
+            ctx.touch(h)
+            for n in own_nodes(h.node):
+                if isinstance(n, ast.If) and isinstance(n.test, ast.Call) and norm(n.test.func) == "isinstance" and isinstance(n.test.args[1], ast.Tuple) \
+                        and any(isinstance(s, ast.Return) and isinstance(s.value, ast.Constant) and s.value.value is True for s in n.body):
+                    excl = {norm(e).split(".")[-1] for e in n.test.args[1].elts}
     ctx.require(excl is not None, "EXCL", cv.qname, "exclusion tuple not found")
     for c in sorted(REQUIRED_EXCLUDED):
         ctx.check(c in excl, "EXCL", f"{c} not copied", func=cv, construct=f"jump-class-copied:{c}",
